@@ -789,6 +789,9 @@ func (r *Replica) Restore(ctx context.Context, opt RestoreOptions) (err error) {
 
 	// Copy file to final location.
 	r.Logger().Debug("renaming database from temporary location")
+	if err := removeStaleSidecars(opt.OutputPath); err != nil {
+		return err
+	}
 	if err := os.Rename(tmpOutputPath, opt.OutputPath); err != nil {
 		return err
 	}
@@ -824,6 +827,20 @@ func (r *Replica) Restore(ctx context.Context, opt RestoreOptions) (err error) {
 		return r.follow(ctx, opt.OutputPath, maxTXID, opt.FollowInterval)
 	}
 
+	return nil
+}
+
+// removeStaleSidecars removes a write-ahead log and shared-memory file left
+// next to an output path that does not exist yet. SQLite treats a "-wal" file
+// beside a database as hot: a leftover WAL of another database (or of an
+// earlier incarnation of this one) would be replayed into the restored
+// database by the integrity check or by the first application that opens it.
+func removeStaleSidecars(outputPath string) error {
+	for _, suffix := range []string{"-wal", "-shm"} {
+		if err := os.Remove(outputPath + suffix); err != nil && !os.IsNotExist(err) {
+			return fmt.Errorf("remove stale %s file next to restore output: %w", suffix, err)
+		}
+	}
 	return nil
 }
 
@@ -1182,6 +1199,9 @@ func (r *Replica) RestoreV3(ctx context.Context, opt RestoreOptions) error {
 	}
 
 	// Rename to final path.
+	if err := removeStaleSidecars(opt.OutputPath); err != nil {
+		return err
+	}
 	if err := os.Rename(tmpPath, opt.OutputPath); err != nil {
 		return fmt.Errorf("rename to output path: %w", err)
 	}
